@@ -117,6 +117,42 @@ def helper_cases():
     yield {'name': 'helper|iast_binary_vle', 'ok': bool(ok), 'detail': '' if ok else f"{numpy.asarray(res['x'])[1:-1]} vs {want}"}
 
 
+def point_mixture_cases():
+    """mixtures of *point* isotherms: the returned loadings satisfy the IAST equations of those isotherms (their own piecewise
+    linear interpolant), also after the isotherms were used and then converted in place to another loading unit"""
+    import pygaps
+    import pygaps.iast as pgi
+    pygaps.logger.disabled = True
+    grid = numpy.concatenate([numpy.linspace(0.02, 1, 25), numpy.linspace(1.2, 12, 30)])
+    Ks, M = [2.5, 0.8, 0.3], 5.0
+
+    def mk():
+        return [pygaps.PointIsotherm(pressure=list(grid), loading=list(M * K * grid / (1 + K * grid)), material='m', adsorbate=f'pgv_gas{i}', temperature=300,
+                                     pressure_mode='absolute', pressure_unit='bar', loading_basis='molar', loading_unit='mmol', material_basis='mass',
+                                     material_unit='g', temperature_unit='K') for i, K in enumerate(Ks)]
+    p = [0.4, 0.9, 1.3]
+    isos = mk()
+    try:
+        res = numpy.asarray(pgi.iast_point(isos, p, warningoff=True))
+        probs = check_equations(isos, p, res, rtol=1e-4)
+        yield {'name': 'point_isotherms|n=3|fresh', 'ok': not probs, 'detail': '; '.join(probs)[:300]}
+        for iso in isos:
+            iso.convert_loading(unit_to='mol')
+        res2 = numpy.asarray(pgi.iast_point(isos, p, warningoff=True))
+        probs = check_equations(isos, p, res2, rtol=1e-4)
+        if not numpy.allclose(res2, res / 1000, rtol=1e-4):
+            probs.append(f"not the mmol result in mol: {res2} vs {res / 1000}")
+        yield {'name': 'point_isotherms|n=3|used_then_converted_to_mol', 'ok': not probs, 'detail': '; '.join(probs)[:300]}
+    except Exception as exc:
+        yield {'name': 'point_isotherms|n=3|fresh', 'ok': type(exc).__name__ == 'CalculationError', 'detail': f"{type(exc).__name__}: {exc}"[:200]}
+
+
+@replayer('c13.point')
+def _point(spec, model):
+    bad = [r for r in point_mixture_cases() if not r['ok']]
+    return {'confirmed': bool(bad), 'observed': [(b['name'], b['detail']) for b in bad], 'expected': 'IAST equations hold for the isotherms as they are now'}
+
+
 @replayer('c13.fraction_array')
 def _fraction_array(spec, model):
     bad = [r for r in helper_cases() if not r['ok']]
